@@ -46,7 +46,7 @@ def cases(tier, seed):
     out = []
     for mi, mesh in enumerate(meshes(tier)):
         geos = list(scope.geometries(3))
-        for geo in (geos if mi < 4 else [geos[(mi + seed) % 6], geos[(mi + seed + 3) % 6]]):
+        for geo in ((geos + scope.extreme_geometries(3)) if mi < 4 else [geos[(mi + seed) % 6], geos[(mi + seed + 3) % 6]]):
             d = dict(mesh)
             d.update(geo)
             d.update({"fields": ["temp", "density", "Z"], "payload": "affidx", "seed": seed,
